@@ -222,10 +222,11 @@ def req(a, b=7, /, c=8, *args, d, e=9, **kw):
 _SITES = [0, 1, 'c', 3, 'd', 'e', 'extra']     # a (no default), b (default), c, *args[0], d (required kw-only), e, **kw
 
 
-def c15_tag_iter(mask: int, setmask: int, q: int, shared: bool, v: int) -> bool:
+def c15_tag_iter(mask: int, setmask: int, q: int, shared: bool, v: int, dbl: bool) -> bool:
   """
   Iterating a tag selection yields, for each selected argument, its value, else its default, else NO_VALUE - once per
-  tagged argument of each distinct Buildable (bit i of `mask`: site i tagged T1, bit i of `setmask`: site i has a value).
+  tagged argument of each distinct Buildable (bit i of `mask`: site i tagged T1, bit i of `setmask`: site i has a value;
+  `dbl`: every tagged site carries T0 as well, so that for q == 0 two of its tags match and it must still come once).
   require: 0 <= mask < 128 and 0 <= setmask < 128 and 0 <= q <= 1
   """
   mask, setmask = _conc(mask, 0, 127), _conc(setmask, 0, 127)
@@ -248,6 +249,8 @@ def c15_tag_iter(mask: int, setmask: int, q: int, shared: bool, v: int) -> bool:
   for i, key in enumerate(_SITES):
     if mask & (1 << i):
       fdl.add_tag(cfg, key, T1)
+      if dbl:
+        fdl.add_tag(cfg, key, T0)
   defaults = {1: 7, 2: 8, 5: 9}
   expect = []
   for i in range(7):
@@ -266,7 +269,7 @@ def c15_tag_iter(mask: int, setmask: int, q: int, shared: bool, v: int) -> bool:
   got = []
   for x in selectors.select(root, tag=qt, check_nonempty=False):
     got.append(('NO_VALUE',) if x is tagging.NO_VALUE else ('v', x))
-  note('c15t', mask, setmask, q, shared)
+  note('c15t', mask, setmask, q, shared, bool(dbl))
   key = lambda t: (t[0], -1 if len(t) < 2 or t[1] is None else t[1])
   return sorted(got, key=key) == sorted(expect, key=key)
 
@@ -290,7 +293,7 @@ def obligations(tier, seed):
             cubes.append(Cube(f'{API[api]}_f{f}_m{int(ms)}_b{bt}_w{w}', [], fix, est=25 * 2 * 9 * 9))
   tcubes = [Cube(f'm{m}', [f'mask % 8 == {m}'], {}, est=16 * 128 * 4) for m in range(8)]
   if tier == 'quick':
-    tcubes = [Cube(f'm{m}_s{s}', [f'mask % 16 == {m}', f'setmask % 4 == {s}'], dict(shared=bool((m + s) % 2)), est=8 * 32 * 2)
+    tcubes = [Cube(f'm{m}_s{s}', [f'mask % 16 == {m}', f'setmask % 4 == {s}'], dict(shared=bool((m + s) % 2), dbl=bool((m // 3 + s) % 2)), est=8 * 32 * 2)
               for m in range(16) for s in range(4) if (m + s) % 3 == 0]
   t = 300 if tier == 'quick' else 900
   smoke = dict(api=0, f=1, ms=True, bt=0, w=1, c0=0, c1=2, c2=1, c3=0, k0=False, k1=True, k2=False, k3=False,
@@ -302,6 +305,7 @@ def obligations(tier, seed):
                  [dict(smoke, api=7, f=2, c0=2, c1=2, c2=0, c3=0, t3x=1, t3y=-1, t2x=-1, t2y=-1, t1x=-1, bt=0)] +
                  [dict(smoke, api=5, f=1, c3=0, c2=2, c1=1, c0=3, t3x=2, t3y=0, t2x=1, t2y=0)]),
       Obligation('c15_tag_iter', c15_tag_iter, tcubes, timeout=t, path_timeout=40,
-                 smoke=dict(mask=0b1111111, setmask=0b0010111, q=1, shared=True, v=3),
-                 extra_smokes=[dict(mask=0b0110011, setmask=0, q=0, shared=False, v=3)]),
+                 smoke=dict(mask=0b1111111, setmask=0b0010111, q=1, shared=True, v=3, dbl=False),
+                 extra_smokes=[dict(mask=0b0110011, setmask=0, q=0, shared=False, v=3, dbl=False),
+                               dict(mask=0b0110011, setmask=0b0000111, q=0, shared=True, v=3, dbl=True)]),
   ]
